@@ -19,9 +19,11 @@ CLAIMED = {
  "C19": dict(engine="wire-sim", ref="DESIGN.md 3 C19", technique="deterministic simulation: generated connection histories with per-request fault outcomes and end-of-connection kinds on the fake clock, recording tracer, two-state automaton + stage-order oracle over the call log",
    text="Seeded exploration of connection histories (1..5 requests x outcome per request incl. injected FIN/RST mid-message, write errors, hijack, panic+recovery x end of connection incl. idle timeout on the simulated clock and the return-to-transport mode) against the real server loop with a recording tracer; Start/Finish must alternate with no orphan Finish, one pair per handled request carrying its data, stage events ordered and closed.",
    note=SIMNOTE),
+ "C03": dict(engine="wire-sim", ref="DESIGN.md 3 C03", technique="deterministic simulation with fault injection: structure-aware corruption, truncation, FIN/RST at seeded offsets and seeded fragmentation of valid request streams against the real server; panic capture, strict output reader, rejection-shape oracle",
+   text="Seeded exploration of hostile peers: valid request streams feeding every request-side parser (URI, query, cookies, Range/date via the file handler, multipart, trailers) are corrupted, truncated and cut by FIN/RST at tape-chosen points and delivered in tape-chosen fragments; no panic may escape Engine.Serve, all output must decode as complete responses, and a parse-level rejection must be one 4xx with Connection: close followed by a close. Server read path and the wire paths into the public parsers; direct parser fuzzing is not claimed.",
+   note=SIMNOTE + " Client response read path not yet covered by this check."),
 }
 PENDING = {
- "C03": "check not built yet in this session (planned: wire-sim, DESIGN.md 3 C03)",
  "C08": "check not built yet in this session (planned: conc-sim, DESIGN.md 3 C08)",
  "C09": "check not built yet in this session (planned: wire-sim + conc-sim, DESIGN.md 3 C09)",
  "C10": "check not built yet in this session (planned: conc-sim, DESIGN.md 3 C10)",
